@@ -339,7 +339,9 @@ func configChild(path, tlsKeyLogPath string) {
 	if cfg.Configuration.Cgf.Enable {
 		cgf.CGFEnable = true
 		wg.Add(1)
+		unlockCfg := lockCgfConfig()
 		cgf.OpenServer(ctx, &wg)
+		unlockCfg()
 	}
 	wg.Add(2)
 	rf.OpenServer(ctx, &wg)
